@@ -13,6 +13,11 @@ RULE = ("exhaustive: weights in {1,-1,2,-1/2}^n (n<=2; n<=3 thorough) x all pair
         "containers (tuple/list/deque/float64, float32 and int64 arrays x constructor/keyword/property x zero and "
         "single-element tuples, both classes); integers beyond 2**53 and rationals with integer weights; finite weights x "
         "finite values whose products saturate at +-inf; values an ulp apart; random: n<=5 dyadic weights/values; "
+        "clones by copy.copy / copy.deepcopy / pickle (every protocol) / toolbox.clone / inside a cloned or pickled individual, plain and "
+        "constrained class, n<=5, ARBITRARY finite non-zero float weights (0.7, 1.3, 1/3, 49.0, 1e-3, 1e3, random doubles over 60 decades) x "
+        "arbitrary doubles (ordinary, weighted value an exact power of two, subnormal, saturating): compares equal, weighted values bit for bit; "
+        "numpy fixed-width integer values (uint8/16/32/64, int8/16/32/64; scalars, lists of scalars, arrays; every ordered pair over each type's "
+        "minimum, maximum and neighbours, and random n<=3) under float weights of both signs (+-1, +-2, +-1/2, +-3, -3/4, 3/2), also against python numbers; "
         "families of related fitness classes (fresh classes per case): every order of first use over chains of 2-3 classes "
         "(all pairs of sign vectors n<=2, derived by class / creator.create / mixed, weights overridden or inherited, plain and "
         "constrained root) and random histories (new class / new object from tuple, list, array, deque / assign / read-back / str / "
@@ -23,11 +28,22 @@ EXHAUSTIVE = {"quick": False, "thorough": False}
 TIME_BUDGET = {"quick": 60, "thorough": 900}
 TRUSTED = ["IEEE-754: products/quotients of the small dyadic inputs used here are exact, so the Rat model "
            "and the float implementation compute the same numbers",
-           "CPython tuple comparison and slicing (modelled in Core/Py.lean, exercised by every line)"]
+           "CPython tuple comparison and slicing (modelled in Core/Py.lean, exercised by every line)",
+           "IEEE-754 binary64 round-to-nearest-even of * and / in the normal range is what Fitness.rn64 computes on rationals: every "
+           "`rclone` line is answered by the model over Fitness.R64 AND by the machine's Float in the compiled driver (last token = they "
+           "agree), and compared with CPython's floats"]
 ASSUMPTIONS = ["weights are non-zero finite numbers; values are finite numbers (no NaN)",
                "the read-back clause is claimed for values that are doubles (an integer beyond 2**53 is converted by the "
                "true division of the getter, as documented for Python's `/`); such integers and exact rationals are used for "
                "the comparison and dominance clauses only, with integer weights so that the products are exact",
+               "numpy fixed-width integer values are paired with FLOAT weights (the documented form, weights=(-1.0,)): the product is then a "
+               "double, exact below 2**53; a 64-bit integer beyond 2**53 is read as the double it converts to (same reading as for python "
+               "integers: the weighted values are doubles) and the model is driven with the order image of those doubles. With python-int "
+               "weights numpy computes the product in the fixed-width type itself (int8(100)*2 wraps, uint8(5)*-1 raises OverflowError in numpy 2): "
+               "that is numpy's multiplication, outside the statement's finite-number arithmetic, not exercised",
+               "clone stream: NaN is excluded (finite values); weighted values that saturate at +-inf or are subnormal are checked by the oracle "
+               "only (Fitness.R64 has no exponent bounds); that a clone's weighted values are BITWISE the original's is a correspondence claim "
+               "(C01.clone_bitwise), the oracle demands `compares equal` as the statement does",
                "saturated stream: the model is driven with a strictly increasing image of the weighted values (inf -> 2^1100), "
                "justified by C01.compare_order_invariant; the oracle compares the products themselves",
                "class families: single inheritance between fitness classes (creator.create takes one base class) and `weights` is "
@@ -39,7 +55,11 @@ EXPLANATION = ("Theorems C01.* are proved for every linearly ordered field and a
                "histories over several related classes; C01.class_isolation proves that no operation on another class or instance can "
                "change a result (so the unchanged library has no per-class cache to go stale), C01.readback_hierarchy the read-back "
                "for a derived class whatever its ancestors declare; the family streams drive exactly those histories through the real "
-               "classes (fresh per case, both orders of first use).")
+               "classes (fresh per case, both orders of first use). Clones: the model's clone carries the original's weighted values "
+               "themselves (C01.clone_bitwise, no arithmetic), so it is equal for every weight vector; C01.clone_no_recompute shows a clone "
+               "rebuilt through the public values is the original iff (x/w)*w = x for every weighted value, which holds in a field "
+               "(reclone_field) and fails in binary64 (reclone_witness, recloneInv_witness, kernel-checked on Fitness.R64); the rclone stream "
+               "replays exactly that arithmetic on arbitrary doubles and weights through every cloning route of the real objects.")
 
 
 def fr(s):
@@ -119,6 +139,10 @@ def evaluate(d):
     k = d["k"]
     if k == "fam":
         return eval_fam(d)
+    if k == "rclone":
+        return eval_rclone(d)
+    if k == "npint":
+        return eval_npint(d)
     w = [fr(x) for x in d["w"]]
     num = d.get("num", "float")
     conv = {"float": float, "int": int, "frac": (lambda q: q)}.get(num, float)
@@ -384,6 +408,194 @@ def eval_ctor(d):
                               bits([cl == f]), bits([hash(cl) == hash(ref)]))
     return Case(d, ["C01 vals %s %s" % (slist(w), slist(a))], [out], orc,
                 tag=tagc)
+
+
+# ---------------------------------------------------------------------------------------------------------------
+# clones of fitnesses with arbitrary finite non-zero weights and arbitrary doubles (IEEE replay; model: Fitness.R64,
+# theorems clone_eq / clone_bitwise / clone_no_recompute / recloneInv_witness)
+
+def fx(h):
+    return float.fromhex(h)
+
+
+def exnum(x):
+    """the exact rational a python / numpy number is"""
+    import numpy
+    if isinstance(x, (bool, numpy.bool_)):
+        return Fr(int(x))
+    if isinstance(x, (int, numpy.integer)):
+        return Fr(int(x))
+    if isinstance(x, Fr):
+        return x
+    return Fr(float(x))
+
+
+RC_LO, RC_HI = 1e-60, 1e60       # the range in which Fitness.R64 (no exponent bounds) is binary64
+
+
+def eval_rclone(d):
+    """Every way a caller gets a clone of a fitness (copy.copy, copy.deepcopy, pickle with every protocol,
+    toolbox.clone, the fitness inside a cloned / pickled individual): the clone compares equal to its original
+    (==, not !=, not <, not >, <=, >=, neither dominates the other, same validity) for ARBITRARY finite non-zero
+    weights and arbitrary doubles.  Correspondence: the weighted values of original and clone as exact rationals
+    against the binary64 model, and the clone's weighted values bit for bit the original's (clone_bitwise)."""
+    import pickle
+    from deap import creator
+    from lib import fbits
+    w = [fx(x) for x in d["w"]]
+    a = [fx(x) for x in d["a"]]
+    cons = bool(d.get("constrained"))
+    cv = d.get("cv")
+    root = base.ConstrainedFitness if cons else base.Fitness
+    creator.create("C01RCFit", root, weights=tuple(w))
+    creator.create("C01RCInd", list, fitness=creator.C01RCFit)
+    try:
+        F, Ind = creator.C01RCFit, creator.C01RCInd
+        f = F(tuple(a), list(cv)) if (cons and cv is not None) else F(tuple(a))
+        ind = Ind([1, 2, 3])
+        if a:
+            ind.fitness.values = tuple(a)
+        if cons and cv is not None:
+            ind.fitness.constraint_violation = list(cv)
+        tb = base.Toolbox()
+        clones = [("copy.copy", copy.copy(f)), ("copy.deepcopy", copy.deepcopy(f)), ("toolbox.clone", tb.clone(f)),
+                  ("toolbox.clone(individual).fitness", tb.clone(ind).fitness),
+                  ("copy.deepcopy(individual).fitness", copy.deepcopy(ind).fitness),
+                  ("deepcopy of a deepcopy", copy.deepcopy(copy.deepcopy(f)))]
+        for proto in range(pickle.HIGHEST_PROTOCOL + 1):
+            clones.append(("pickle protocol %d" % proto, pickle.loads(pickle.dumps(f, proto))))
+        clones.append(("pickled individual's fitness", pickle.loads(pickle.dumps(ind, 2)).fitness))
+        clones.append(("pickle of a pickle", pickle.loads(pickle.dumps(pickle.loads(pickle.dumps(f)), 2))))
+        orc = None
+        corr = None
+        ref = {"ind": ind.fitness}
+        for name, c in clones:
+            o = ref["ind"] if "individual" in name else f
+            doms = (o.dominates(c), c.dominates(o))
+            ok = ((c == o) and not (c != o) and not (c < o) and not (c > o) and (c <= o) and (c >= o)
+                  and (o == c) and not doms[0] and not doms[1] and c.valid == o.valid and c is not o)
+            if not ok and orc is None:
+                orc = ("clone made by %s does not compare equal to its original: weights %r values %r; original wvalues %r, "
+                       "clone wvalues %r; ==:%s !=:%s <:%s >:%s original.dominates(clone):%s clone.dominates(original):%s valid %s/%s"
+                       % (name, tuple(w), tuple(a), tuple(o.wvalues), tuple(c.wvalues), c == o, c != o, c < o, c > o,
+                          doms[0], doms[1], c.valid, o.valid))
+            if cons and orc is None and base._violates_constraint(c) != base._violates_constraint(o):
+                orc = "clone made by %s of a constrained fitness lost its violation record" % name
+            if corr is None and [fbits(x) for x in c.wvalues] != [fbits(x) for x in o.wvalues]:
+                corr = ("CORRESPONDENCE: clone made by %s holds weighted values %r, the original %r (the model's clone carries "
+                        "the original's weighted values themselves, C01.clone_bitwise)" % (name, tuple(c.wvalues), tuple(o.wvalues)))
+        if orc is None:
+            orc = corr
+        tag = "rclone/%s/n=%d/%s" % ("constrained" if cons else "plain", len(a), d.get("gen", "rand"))
+        inrange = a and all(RC_LO <= abs(x) <= RC_HI for x in w) and all(x == 0 or RC_LO <= abs(x) <= RC_HI for x in a)
+        if not inrange:
+            return Case(d, [], [], orc, tag=tag + "/oracle-only", nontrivial=bool(a))
+        wvp = [x * y for x, y in zip(a, w)]
+        rdiv = [(x / y) * y for x, y in zip(wvp, w)]
+        rinv = [(x * (1.0 / y)) * y for x, y in zip(wvp, w)]
+        c = clones[1][1]
+        out = "%s %s %s %s %s 1" % (slist(_exf(f.wvalues)), slist(_exf(c.wvalues)), slist(_exf(rdiv)), slist(_exf(rinv)),
+                                    bits([c == f, c != f, c < f, c > f, f.dominates(c), c.dominates(f), c.valid]))
+        differs = "/rt-differs" if (rdiv != wvp or rinv != wvp) else ""
+        return Case(d, ["C01 rclone %s %s" % (",".join(fbits(x) for x in w), ",".join(fbits(x) for x in a))], [out], orc,
+                    tag=tag + differs, nontrivial=True)
+    finally:
+        for name in ("C01RCInd", "C01RCFit"):
+            if hasattr(creator, name):
+                delattr(creator, name)
+
+
+# ---------------------------------------------------------------------------------------------------------------
+# values handed over as numpy fixed-width integers (scalars and arrays, every width and signedness, each type's
+# minimum and maximum) under float weights of both signs: judged on the exact value * weight
+
+def eval_npint(d):
+    import numpy
+    dt = getattr(numpy, d["dt"])
+    w = [fr(x) for x in d["w"]]
+    a = [int(x) for x in d["a"]]
+    b = [int(x) for x in d["b"]]
+    F = fit_class(w, constrained=bool(d.get("constrained")))
+    wf = [float(x) for x in w]
+
+    def box(vals, kind):
+        if kind == "array":
+            return numpy.array(vals, dtype=dt)
+        if kind == "py":
+            return tuple(vals)
+        if kind == "list":
+            return [dt(x) for x in vals]
+        return tuple(dt(x) for x in vals)
+
+    def build(vals, kind):
+        if d.get("via") == "prop":
+            f = F()
+            f.values = box(vals, kind)
+            return f
+        return F(box(vals, kind))
+    fa, fb = build(a, d["box"]), build(b, d.get("boxb", d["box"]))
+    # the weighted values: exact products; where a product is not a double (64-bit integers beyond 2**53) the
+    # weighted value is read as the double the product rounds to (statement's reading for doubles), i.e. what
+    # float(value) * weight is in binary64
+    def weighted(vals):
+        exactp = [Fr(v) * x for v, x in zip(vals, w)]
+        rep = all(abs(p) < 2 ** 1000 and Fr(float(p)) == p for p in exactp) and all(Fr(float(v)) == v for v in vals)
+        comp = [Fr(float(v) * y) for v, y in zip(vals, wf)]
+        if rep:
+            assert comp == exactp, (vals, w)
+            return tuple(exactp), True
+        return tuple(comp), False
+    (wa, ra), (wb, rb) = weighted(a), weighted(b)
+    rep = ra and rb
+    got = [fa < fb, fa <= fb, fa > fb, fa >= fb, fa == fb, fa != fb]
+    want = [lex_lt(wa, wb), lex_lt(wa, wb) or wa == wb, lex_lt(wb, wa), lex_lt(wb, wa) or wa == wb, wa == wb, wa != wb]
+    sl = slice(*d["slice"])
+    ia = list(range(*sl.indices(len(wa))))
+    cons = bool(d.get("constrained"))
+    gd = fa.dominates(fb) if (cons or d["slice"] == [None, None, None]) else fa.dominates(fb, sl)
+    if cons:
+        ia = list(range(len(wa)))
+    sa, sb = [wa[i] for i in ia], [wb[i] for i in ia]
+    wd = all(x >= y for x, y in zip(sa, sb)) and any(x > y for x, y in zip(sa, sb))
+    what = "numpy.%s %s (%s / %s), weights %r" % (d["dt"], "values", d["box"], d.get("boxb", d["box"]), tuple(wf))
+    orc = None
+    if [bool(x) for x in got] != want:
+        orc = ("operators %s differ from the lexicographic comparison %s of the weighted values %s / %s: %s, values %r / %r, "
+               "library wvalues %r / %r" % (bits(got), bits(want), slist(wa), slist(wb), what, a, b, tuple(fa.wvalues), tuple(fb.wvalues)))
+    elif bool(gd) != wd:
+        orc = ("dominates=%s but the definition gives %s on the weighted values %s / %s, slice %s: %s, values %r / %r"
+               % (gd, wd, slist(wa), slist(wb), d["slice"], what, a, b))
+    elif not fa.valid or not fb.valid:
+        orc = "fitness assigned %s reports invalid" % what
+    elif all(abs(x) == 1 for x in w):
+        for vals, f in ((a, fa), (b, fb)):
+            if all(abs(v) < 2 ** 53 for v in vals) and tuple(exnum(x) for x in f.values) != tuple(Fr(v) for v in vals) and orc is None:
+                orc = "values read back %r differ from the assigned %r (weights +-1; %s)" % (tuple(f.values), vals, what)
+    if orc is None:
+        cl = copy.deepcopy(fa)
+        if not (cl == fa) or cl != fa or cl < fa or cl > fa or fa.dominates(cl) or cl.dominates(fa) or not cl.valid:
+            orc = "clone does not compare equal to its original (%s, values %r)" % (what, a)
+    tag = "npint/%s/%s/%s%s" % (d["dt"], d["box"], "exact" if rep else "rounded", "/constrained" if cons else "")
+    if cons:
+        cl = copy.deepcopy(fa)
+        if rep:
+            return Case(d, ["C01 ccmp %s %s none %s none" % (slist(w), slist(a), slist(b))],
+                        ["%s %s 00 %s" % (bits(got), bits([gd]), bits([cl == fa, base._violates_constraint(cl)]))],
+                        orc, tag=tag, nontrivial=(a != b))
+        return Case(d, [], [], orc, tag=tag, nontrivial=(a != b))
+    if rep:
+        mw, ma, mb = w, a, b
+    else:       # order-isomorphic image (weights 1), justified by C01.compare_order_invariant as in the saturated stream
+        mw, ma, mb = [1] * len(w), wa, wb
+    lines = ["C01 cmp %s %s %s" % (slist(mw), slist(ma), slist(mb)),
+             "C01 dom %s %s %s %s %s" % (slist(mw), slist(ma), slist(mb), ilist(ia), ilist(ia))]
+    expect = [bits(got), bits([gd])]
+    if rep:
+        cl = copy.deepcopy(fa)
+        lines.append("C01 vals %s %s" % (slist(w), slist(a)))
+        expect.append("%s %s %s %s %s" % (slist([exnum(x) for x in fa.wvalues]), slist([exnum(x) for x in fa.values]),
+                                          bits([fa.valid]), bits([cl == fa]), bits([hash(cl) == hash(fa)])))
+    return Case(d, lines, expect, orc, tag=tag, nontrivial=(a != b))
 
 
 WSET = ["1", "-1", "2", "-1/2"]
@@ -780,11 +992,143 @@ def rand_weight(rng):
             return sfr(q)
 
 
+RC_WEIGHTS = [0.7, 1.3, 1.0 / 3.0, 49.0, 1e-3, 1e3, 0.3, 0.1, 3.0, 2.5, 0.9, 7.0, 10.0, 1e-7, 3.141592653589793,
+              1.0, 2.0, 0.5, 0.75, 1.1, 6.0, 0.01, 12345.678, 1.0 / 7.0]
+NP_DTYPES = ["uint8", "int8", "uint16", "int16", "uint32", "int32", "uint64", "int64"]
+NP_WEIGHTS = ["1", "-1", "-1", "1", "-1", "2", "-2", "1/2", "-1/2", "3", "-3", "-3/4", "3/2"]
+
+
+def rc_weight(rng):
+    r = rng.random()
+    if r < 0.6:
+        x = rng.choice(RC_WEIGHTS)
+    elif r < 0.8:
+        x = rng.uniform(0.01, 100.0)
+    else:
+        x = rng.uniform(1.0, 10.0) * 10.0 ** rng.randint(-30, 30)
+    return x if rng.random() < 0.5 else -x
+
+
+def rc_value(rng):
+    r = rng.random()
+    if r < 0.3:
+        x = rng.random()
+    elif r < 0.5:
+        x = rng.uniform(-1000.0, 1000.0)
+    elif r < 0.6:
+        x = float(rng.randint(-50, 50))
+    elif r < 0.7:
+        x = rng.choice([0.1, 0.7, 0.2, 0.3, 0.6, 1.1, 0.020408163265306124, 0.0012755102040816328, 1e-9, 123.456])
+    elif r < 0.75:
+        x = rng.choice([0.0, -0.0])
+    elif r < 0.9:
+        x = rng.gauss(0.0, 1.0) * 10.0 ** rng.randint(-40, 40)
+    else:
+        x = rng.uniform(-1.0, 1.0) * 2.0 ** rng.randint(-20, 20)
+    return x
+
+
+def gen_rclone(rng, count):
+    import math
+    # the reproducers of seeded change C01-r7m2 first (ordinary values; the power-of-two boundary)
+    fixed = [((-0.7, 1.3), (0.1, 0.7)), ((49.0,), (0.020408163265306124,)), ((49.0,), (0.0012755102040816328,)),
+             ((1.0 / 3.0,), (3.0,)), ((0.3, -0.1, 1e3), (0.7, 0.9, 1e-3)), ((-1.0, 1.0), (0.1, 0.7)), ((2.0, -0.5), (0.1, 0.7))]
+    for w, a in fixed:
+        for cons in (False, True):
+            yield {"k": "rclone", "gen": "fixed", "w": [x.hex() for x in w], "a": [x.hex() for x in a], "constrained": cons}
+    for i in range(count):
+        n = rng.randint(1, 5)
+        cons = rng.random() < 0.25
+        cv = rng.choice([None, None, [False], [True, False], [0, 2]]) if cons else None
+        kind = i % 4
+        w = [rc_weight(rng) for _ in range(n)]
+        if kind == 3:
+            # weighted value exactly a power of two (where (x / w) * w can lose the last bit)
+            a = []
+            for x in w:
+                p = 2.0 ** rng.randint(-12, 12) * rng.choice([1, -1])
+                cands, v0 = [], p / x
+                for up in (math.inf, -math.inf):
+                    v = v0
+                    for _s in range(3):
+                        if v * x == p:
+                            cands.append(v)
+                        v = math.nextafter(v, up)
+                a.append(rng.choice(cands) if cands else v0)
+            gen = "pow2"
+        elif kind == 2 and rng.random() < 0.5:
+            # far out: subnormal values, products that saturate at +-inf (oracle only)
+            w = [x * rng.choice([1.0, 1e200, 1e-200]) for x in w]
+            a = [rng.choice([5e-324, 1e-310, 1e308, 1.7e308, -1e308, 1e-300, 2.5, 0.0]) for _ in range(n)]
+            gen = "far"
+        else:
+            a = [rc_value(rng) for _ in range(n)]
+            gen = "rand"
+        if rng.random() < 0.03:
+            a = []
+        yield {"k": "rclone", "gen": gen, "w": [x.hex() for x in w], "a": [x.hex() for x in a], "constrained": cons, "cv": cv}
+
+
+def np_bounds(dt):
+    bitsn = int(dt.lstrip("uint"))
+    return (0, 2 ** bitsn - 1) if dt.startswith("u") else (-2 ** (bitsn - 1), 2 ** (bitsn - 1) - 1)
+
+
+def np_value(rng, dt):
+    lo, hi = np_bounds(dt)
+    r = rng.random()
+    if r < 0.45:
+        return rng.choice([lo, lo, lo + 1, hi, hi - 1, 0, 0, 1, 5, min(hi, 200), max(lo, -7), max(lo, -1)])
+    if r < 0.7:
+        return rng.randint(max(lo, -20), min(hi, 20))
+    if r < 0.8 and hi > 2 ** 53:
+        return rng.choice([2 ** 53, 2 ** 53 + 1, 2 ** 53 - 1, hi - rng.randint(0, 4096), 2 ** 62 + rng.randint(-3, 3)])
+    return rng.randint(lo, hi)
+
+
+def gen_npint_edges():
+    """every ordered pair over each type's edge values, minimised and maximised, as numpy scalars and as an array"""
+    for dt in NP_DTYPES:
+        lo, hi = np_bounds(dt)
+        pool = sorted(set([lo, lo + 1, 0, 1, 5, hi - 1, hi] + ([-1, -7] if lo < 0 else [])))
+        for w in ("-1", "1"):
+            for x in pool:
+                for y in pool:
+                    for box in ("scalar", "array"):
+                        yield {"k": "npint", "dt": dt, "w": [w], "a": [str(x)], "b": [str(y)], "box": box,
+                               "via": "ctor" if box == "scalar" else "prop", "slice": [None, None, None]}
+
+
+def gen_npint_random(rng, count):
+    for _ in range(count):
+        dt = rng.choice(NP_DTYPES)
+        n = rng.randint(1, 3)
+        w = [rng.choice(NP_WEIGHTS) for _ in range(n)]
+        a = [np_value(rng, dt) for _ in range(n)]
+        if rng.random() < 0.5:
+            b = list(a)
+            b[rng.randrange(n)] = np_value(rng, dt)
+        else:
+            b = [np_value(rng, dt) for _ in range(n)]
+        box = rng.choice(["scalar", "scalar", "array", "array", "list"])
+        boxb = rng.choice([box, box, box, "py", "scalar", "array"])
+        yield {"k": "npint", "dt": dt, "w": w, "a": [str(x) for x in a], "b": [str(x) for x in b], "box": box, "boxb": boxb,
+               "via": rng.choice(["ctor", "prop"]), "slice": rng.choice(slices_for(n)), "constrained": rng.random() < 0.15}
+
+
 def generate(tier, rng, mult):
     thorough = tier == "thorough"
     nmax = 3 if thorough else 2
     # families of related fitness classes: every order of first use (whole read-back / comparison clauses on derived classes)
     for d in gen_fam_orders(rng):
+        yield d
+    # clones (copy / deepcopy / pickle / toolbox.clone) under arbitrary finite non-zero weights and arbitrary doubles
+    for d in gen_rclone(rng, (6000 if thorough else 600) * mult):
+        yield d
+    # numpy fixed-width integer values (every width and signedness, each type's minimum and maximum)
+    for d in gen_npint_edges():
+        yield d
+    for d in gen_npint_random(rng, (8000 if thorough else 800) * mult):
         yield d
     for n in range(1, nmax + 1):
         sls = slices_for(n)
@@ -934,14 +1278,14 @@ def shrink(d):
                 e["ops"] = ops[:i] + ops[i + 1:]
                 yield e
         return
-    if d["k"] in ("cmp", "dom", "vals", "sat") and len(d["w"]) > 1:
+    if d["k"] in ("cmp", "dom", "vals", "sat", "rclone", "npint") and len(d["w"]) > 1:
         for i in range(len(d["w"])):
             e = dict(d)
             e["w"] = d["w"][:i] + d["w"][i + 1:]
             e["a"] = d["a"][:i] + d["a"][i + 1:]
             if "b" in d:
                 e["b"] = d["b"][:i] + d["b"][i + 1:]
-            if d["k"] in ("dom", "sat"):
+            if d["k"] in ("dom", "sat", "npint"):
                 e["slice"] = [None, None, None]
             yield e
     if d["k"] == "hist" and len(d["ops"]) > 1:
